@@ -22,6 +22,8 @@ theorem sul_constants : Generated.sulVersion = Standard.cp "V1.00" ∧ Generated
     ∧ Generated.sulMaxRecordLength = 16384 := by decide
 theorem segWeights_eq : Generated.segWeights = Standard.segWeights := by decide
 theorem hcPattern_eq : Generated.hcPattern = Standard.hcPattern := by decide
+theorem checkOrder_eq : Generated.checkOrder = Standard.checkOrder := by decide
+theorem writeSteps_eq : Generated.writeSteps = Standard.writeSteps := by decide
 theorem sets_eq : Generated.sets = Standard.sets := by decide +kernel
 
 /-- schema side-conditions used by the EFLR theorems: every set type and label is a non-empty ASCII IDENT
